@@ -170,7 +170,7 @@ def run(tier, seed, jobs):
     plans = []
     from mc import progfam
     # hand-built family (mc/progfam.py): every program, every alternative of the overwriting mutation
-    fam = [(progfam.family_configs(pipeline.LANGS, 'all' if tier == 'thorough' else 'mini'), ['first'], 1, 1,
+    fam = [(progfam.family_configs(pipeline.LANGS, 'core' if tier == 'thorough' else 'mini'), ['first'], 1, 1,
             {'chunk': 6 if tier == 'quick' else 30, 'run_kw': {'deviate_stages': ('overwrite',)}})]
     for part in fam + [tuple(p_) + ({},) for p_ in plan(tier)]:
         configs, policies, bound, nslices, extra = part
